@@ -259,6 +259,23 @@ class Folder:
                 if len(r) <= 4096:
                     return list(r)
             raise Unfoldable(norm(n))
+        if isinstance(n, ast.Call) and isinstance(n.func, ast.Name) and n.func.id in ('ord', 'chr', 'str', 'int', 'len') and len(n.args) == 1 and not n.keywords \
+                and n.func.id not in self.env and n.func.id not in self.funcs:
+            v = self.fold(n.args[0], local_enum)
+            try:
+                if n.func.id == 'ord' and isinstance(v, str) and len(v) == 1:
+                    return ord(v)
+                if n.func.id == 'chr' and type(v) is int and 0 <= v < 0x110000:
+                    return chr(v)
+                if n.func.id == 'str' and type(v) in (int, str):
+                    return str(v)
+                if n.func.id == 'int' and type(v) in (int, str):
+                    return int(v)
+                if n.func.id == 'len' and isinstance(v, (str, list, tuple, dict)):
+                    return len(v)
+            except ValueError:
+                pass
+            raise Unfoldable(norm(n))
         if isinstance(n, ast.Call) and isinstance(n.func, ast.Name) and n.func.id in ('dict', 'tuple', 'list') and len(n.args) == 1 and not n.keywords:
             v = self.fold(n.args[0], local_enum)
             if n.func.id == 'dict' and isinstance(v, dict):
@@ -270,6 +287,14 @@ class Folder:
             raise Unfoldable(norm(n))
         if isinstance(n, ast.UnaryOp) and isinstance(n.op, ast.USub):
             return -self.fold(n.operand, local_enum)
+        if isinstance(n, ast.BinOp) and isinstance(n.op, ast.Mod):
+            a, b = self.fold(n.left, local_enum), self.fold(n.right, local_enum)
+            if isinstance(a, str) and (type(b) in (int, str) or (isinstance(b, tuple) and all(type(x) in (int, str) for x in b))):
+                try:
+                    return a % b
+                except (TypeError, ValueError):
+                    pass
+            raise Unfoldable(norm(n))
         if isinstance(n, ast.BinOp) and isinstance(n.op, (ast.Sub, ast.Mult)):
             a, b = self.fold(n.left, local_enum), self.fold(n.right, local_enum)
             if type(a) is int and type(b) is int:
@@ -327,9 +352,17 @@ class Folder:
                 raise Unfoldable(norm(n))
             if isinstance(f, ast.Attribute) and f.attr == 'format' and not n.keywords:
                 base = self.fold(f.value, local_enum)
-                args = [self.fold(a, local_enum) for a in n.args]
-                if isinstance(base, str):
-                    return base.format(*args)
+                args = self._elts(n.args, local_enum)
+                if isinstance(base, str) and all(type(a) in (int, str) for a in args):
+                    try:
+                        return base.format(*args)
+                    except (IndexError, KeyError, ValueError):
+                        raise Unfoldable(norm(n))
+            if isinstance(f, ast.Attribute) and f.attr == 'escape' and isinstance(f.value, ast.Name) and f.value.id == 're' and len(n.args) == 1 and not n.keywords:
+                v = self.fold(n.args[0], local_enum)
+                if isinstance(v, str):
+                    import re as _re
+                    return _re.escape(v)
             if isinstance(f, ast.Attribute) and isinstance(f.value, ast.Name) and f.value.id in self.m.classes:
                 # helper call with (hopefully) literal arguments: keep symbolic
                 args = []
